@@ -18,9 +18,15 @@ import "math/rand"
 var deepProfiles = []string{"history", "history", "pow2", "boundary", "stream"}
 var deepConsumers = []string{"absent", "eager", "slow", "late", "stopresume", "bursty", "bursty"}
 
-func genDeep(r *rand.Rand) Case {
+func genDeep(r *rand.Rand) Case { return genDeepProf(r, "") }
+
+// genDeepProf: prof "" draws the profile.
+func genDeepProf(r *rand.Rand, prof string) Case {
 	wk := r.Intn(len(wkinds))
 	cs := Case{WKind: wkinds[wk], SW: r.Intn(2) == 0, RF: r.Intn(3) == 0, Prof: deepProfiles[r.Intn(len(deepProfiles))]}
+	if prof != "" {
+		cs.Prof = prof
+	}
 	beh := func() int {
 		switch {
 		case wk == 0:
